@@ -230,7 +230,8 @@ __inst_to_epoch(echs_instant_t i)
 		306U, 337U, 0U, 31U, 61U, 92U,
 		122U, 153U, 184U, 214U, 245U, 275U
 	};
-	unsigned int by = i.y - DAISY_BASE_YEAR;
+	/* years run from Mar to Feb, Jan and Feb belong to the previous one */
+	unsigned int by = i.y - DAISY_BASE_YEAR - (i.m < 3U);
 	/* no bullshit years in our lifetime */
 	unsigned int j0 = by * 365U + by / 4U;
 	/* yday by lookup */
